@@ -325,7 +325,7 @@ inductive Kind where
   | pair (nchan : Nat) (reqs : List Req)
   | hw (src : String) (nchan : Nat) (ending : String) (reqs : List Req)
   | timing
-  | commentFail | dropFail
+  | commentFail | dropFail | longPath
   | mapPix (nchan npix : Nat)
   | mix (nmix : Nat) (idx : List Int) (nfrac : Nat)
 
@@ -356,6 +356,7 @@ def parseKind : P Kind := do
     match f with
     | "commentFail" => pure .commentFail
     | "dropFail" => pure .dropFail
+    | "longPath" => do kw "len"; let _ ← nat; pure .longPath
     | "mapPix" => do kw "nchan"; let n ← nat; kw "npix"; let p ← nat; pure (.mapPix n p)
     | "mix" => do kw "nmix"; let n ← nat; kw "idx"; let idx ← list int; kw "nfrac"; let f ← nat; pure (.mix n idx f)
     | _ => fail s!"bad fault {f}"
@@ -545,6 +546,24 @@ def runLine (ts : List String) : Verdict :=
       else (match judgeSkeleton "fault" r with
         | .ok tags => .ok (tags ++ ["ioFail", "rejected"])
         | v => v)
+    | .longPath, .run r =>
+      -- WriteControl START below a base path of `len` characters (r.nums = [len]).  The run directory is
+      -- base/YYYYMMDD/NNNN (len + 14), the state file …/YYYYMMDD_runNNNN_experiment_state.txt (len + 52); a path of
+      -- more than 4095 characters cannot be created.  What the code does: directory fails → error, nothing changed;
+      -- only the state file fails → error, but the writers are installed and the writing state is left Active
+      -- (so a second START is refused "already in progress"); both fit → writing starts.
+      if r.rets.contains 2 then .viol "C11:wedge a control request got no reply (watchdog)"
+      else
+        let len := (r.nums.headD 0).toNat
+        let want : List Nat :=
+          if len + 14 > 4095 then [1, 0, 0]
+          else if len + 52 > 4095 then [1, 0, 1]
+          else [0, 0, 1]
+        if r.rets != want then .diff s!"longPath len {len}: replies {r.rets} model {want}"
+        else if r.probe == 1 then .viol "C11:data-stalled a failed WriteControl START stopped block processing"
+        else (match judgeSkeleton "fault" r with
+          | .ok tags => .ok (tags ++ ["ioFail", "rejected", if len + 14 > 4095 then "dirFails" else if len + 52 > 4095 then "stateFileFails" else "pathFits"])
+          | v => v)
     | .dropFail, .run _ => .diff "dropFail: the model predicts the deliberate panic of CoreLoop, the implementation survived"
     | .mapPix nchan npix, .run r =>
       if r.rets.contains 2 then .viol "C11:wedge a control request got no reply (watchdog)"
